@@ -20,20 +20,32 @@ structure UState where
   kept : List UEntry := []        -- written to the new archive while scanning, in order
   replaced : List UEntry := []    -- re-created entries, sent to the channel in this order
   pending : List UEntry           -- `target_items` not yet matched (walker order)
+  done : List Bytes := []         -- names whose entry has been re-created (`replaced` in update.rs)
 
-/-- One step of the scan over the old archive (the closure given to `Strategy::transform`),
-    after the `fix:`. `excl`/`need` are evaluated on the old entry's name / metadata. -/
+/-- the walker's result de-duplicated by entry name, first occurrence kept (after the `fix:` for overlapping
+    arguments such as `-r d d/f.txt`) -/
+def dedupGo (seen : List Bytes) : List UEntry → List UEntry
+  | [] => []
+  | t :: ts => if seen.contains t.name then dedupGo seen ts else t :: dedupGo (t.name :: seen) ts
+
+def dedupNames (ts : List UEntry) : List UEntry := dedupGo [] ts
+
+/-- One step of the scan over the old archive (the closure given to `Strategy::transform`), after the `fix:`
+    commits. `excl`/`need` are evaluated on the old entry's name / metadata.  A later entry of a path that has been
+    re-created is an older version of it and is left out. -/
 def updateStep (excl : Bytes → Bool) (need : UEntry → Bool) (s : UState) (e : UEntry) : UState :=
-  match s.pending.find? (·.name == e.name) with
-  | some t =>
-    let pending := s.pending.filter (·.name != e.name)
-    if !excl e.name && need e then { s with replaced := s.replaced ++ [t], pending := pending }
-    else { s with kept := s.kept ++ [e], pending := pending }
-  | none => { s with kept := s.kept ++ [e] }
+  if s.done.contains e.name then s
+  else
+    match s.pending.find? (·.name == e.name) with
+    | some t =>
+      let pending := s.pending.filter (·.name != e.name)
+      if !excl e.name && need e then { s with replaced := s.replaced ++ [t], pending := pending, done := e.name :: s.done }
+      else { s with kept := s.kept ++ [e], pending := pending }
+    | none => { s with kept := s.kept ++ [e] }
 
 /-- `update`: scan, then append the re-created entries and the still pending (new) paths. -/
 def updateOp (excl : Bytes → Bool) (need : UEntry → Bool) (a : List UEntry) (targets : List UEntry) : List UEntry :=
-  let s := a.foldl (updateStep excl need) { pending := targets }
+  let s := a.foldl (updateStep excl need) { pending := dedupNames targets }
   s.kept ++ s.replaced ++ s.pending
 
 /-- `delete` on the same view -/
